@@ -98,6 +98,10 @@ func vh_C10_L3_cwnd_laws() {
 		vassert(!a.inFastRecovery, "T3 leaves fast recovery")
 		vcover("t3")
 	case 1: // third miss indication: fast retransmit / fast recovery, once
+		if vPick(2) == 1 {
+			a.onPTOTimer() // a tail-loss probe fired before: its recovery episode does not suspend the window cut
+			vassert(a.tlrActive, "tail-loss recovery is active")
+		}
 		chunks[0].missIndicator = 2
 		sack := &chunkSelectiveAck{cumulativeTSNAck: base, advertisedReceiverWindowCredit: 1 << 20, gapAckBlocks: []gapAckBlock{{2, 2}}}
 		vassert(vDeliver(a, sack) == nil, "SACK ok")
@@ -192,3 +196,8 @@ func vh_C10_L4_mtu_bound() {
 	vobserve("got", uint64(got))
 	vcover("end")
 }
+
+// C10.L5: the peer's receive window is known from the first packet on: after either kind of
+// establishment each side's rwnd is what the *peer* advertised (= C04.L1 snap / handshake).
+func vh_C10_L5_initial_peer_window_snap()      { vh_C04_L1_snap_tokens() }
+func vh_C10_L5_initial_peer_window_handshake() { vh_C04_L1_client_server() }
